@@ -43,6 +43,9 @@ type SessCfg struct {
 
 func (c SessCfg) Apply(s *kcp.UDPSession) {
 	s.SetWindowSize(c.SndWnd, c.RcvWnd)
+	if c.SndWnd%8 == 0 {
+		s.SetNoDelay(1-c.NoDelay, 50, 1, 1-c.Nc) // reconfigured: first the opposite mode, then the configuration of the run
+	}
 	s.SetNoDelay(c.NoDelay, c.Interval, c.Resend, c.Nc)
 	s.SetStreamMode(c.Stream)
 	s.SetWriteDelay(c.WriteDelay)
